@@ -9,7 +9,6 @@ import json
 import os
 import select
 import subprocess
-import threading
 import time
 
 import common
@@ -27,7 +26,8 @@ class _Worker:
         self.p = None
 
     def start(self):
-        self.p = subprocess.Popen([self.exe], stdin=subprocess.PIPE, stdout=subprocess.PIPE, stderr=subprocess.DEVNULL, env=self.env)
+        self.p = subprocess.Popen([self.exe], stdin=subprocess.PIPE, stdout=subprocess.PIPE, stderr=subprocess.DEVNULL, env=self.env, bufsize=0)
+        os.set_blocking(self.p.stdin.fileno(), False)
 
     def stop(self):
         if self.p is not None:
@@ -42,63 +42,16 @@ class _Worker:
             self.p.wait()
             self.p = None
 
-    def run(self, jobs, timeout, results):
-        pos = 0
-        while pos < len(jobs):
-            part = jobs[pos:]
-            if self.p is None or self.p.poll() is not None:
-                self.start()
-            p = self.p
-
-            def feed(proc=p, items=part):
-                try:
-                    for j in items:
-                        proc.stdin.write((json.dumps(j) + "\n").encode())
-                    proc.stdin.flush()
-                except (BrokenPipeError, OSError, ValueError):
-                    pass
-
-            th = threading.Thread(target=feed, daemon=True)
-            th.start()
-            done = 0
-            buf = b""
-            fd = p.stdout.fileno()
-            last = time.time()
-            status = "ok"
-            while done < len(part):
-                r, _, _ = select.select([fd], [], [], 1.0)
-                if not r:
-                    if time.time() - last > timeout:
-                        status = "timeout"
-                        break
-                    continue
-                chunk = os.read(fd, 1 << 16)
-                if not chunk:
-                    status = "eof"
-                    break
-                buf += chunk
-                while b"\n" in buf:
-                    line, buf = buf.split(b"\n", 1)
-                    if not line.strip():
-                        continue
-                    try:
-                        res = json.loads(line)
-                    except json.JSONDecodeError:
-                        res = {"harness_error": "bad driver output"}
-                    results[part[done]["id"]] = res
-                    done += 1
-                    last = time.time()
-            if status == "ok":
-                th.join()
-                return
-            if status == "timeout":
-                self.stop()
-                results[part[done]["id"]] = {"timeout": True}
-            else:
-                rc = p.wait()
-                self.p = None
-                results[part[done]["id"]] = {"died": rc}
-            pos += done + 1
+    def assign(self, jobs):
+        """(re)load the job list to run; starts the process if needed"""
+        if self.p is None or self.p.poll() is not None:
+            self.start()
+        self.jobs = jobs
+        self.done = 0
+        self.out = b"".join((json.dumps(j) + "\n").encode() for j in jobs)
+        self.wpos = 0
+        self.buf = b""
+        self.last = time.time()
 
 
 _POOL = []
@@ -123,7 +76,9 @@ atexit.register(shutdown)
 
 
 def run_raw(jobs, timeout=30.0, shards=None, env=None):
-    """jobs: dicts with unique 'id' -> {id: result}"""
+    """jobs: dicts with unique 'id' -> {id: result}.  One select() loop over all workers
+    (no threads): job lists are written as fast as the pipes take them, results are read
+    back in order."""
     if not jobs:
         return {}
     environ = dict(os.environ)
@@ -131,14 +86,68 @@ def run_raw(jobs, timeout=30.0, shards=None, env=None):
         environ.update(env)
     n = shards or max(1, min(common.NCPU, len(jobs) // 4))
     workers = _pool(n, environ)
-    parts = [jobs[i::n] for i in range(n)]
     results = {}
     t0 = time.time()
-    threads = [threading.Thread(target=w.run, args=(part, timeout, results)) for w, part in zip(workers, parts) if part]
-    for t in threads:
-        t.start()
-    for t in threads:
-        t.join()
+    active = []
+    for w, part in zip(workers, [jobs[i::n] for i in range(n)]):
+        if part:
+            w.assign(part)
+            active.append(w)
+    while active:
+        rfds = {w.p.stdout.fileno(): w for w in active}
+        wfds = {w.p.stdin.fileno(): w for w in active if w.wpos < len(w.out)}
+        r, wr, _ = select.select(list(rfds), list(wfds), [], 1.0)
+        now = time.time()
+        for fd in wr:
+            w = wfds[fd]
+            try:
+                k = os.write(fd, w.out[w.wpos: w.wpos + (1 << 16)])
+                w.wpos += k
+            except BlockingIOError:
+                pass
+            except (BrokenPipeError, OSError):
+                w.wpos = len(w.out)
+        for fd in r:
+            w = rfds[fd]
+            chunk = os.read(fd, 1 << 18)
+            if not chunk:
+                # the process ended: the first unanswered job was in flight
+                rc = w.p.wait()
+                w.p = None
+                if w.done < len(w.jobs):
+                    results[w.jobs[w.done]["id"]] = {"died": rc}
+                    rest = w.jobs[w.done + 1:]
+                    if rest:
+                        w.assign(rest)
+                    else:
+                        active.remove(w)
+                else:
+                    active.remove(w)
+                continue
+            w.buf += chunk
+            w.last = now
+            while b"\n" in w.buf:
+                line, w.buf = w.buf.split(b"\n", 1)
+                if not line.strip():
+                    continue
+                try:
+                    res = json.loads(line)
+                except json.JSONDecodeError:
+                    res = {"harness_error": "bad driver output"}
+                if w.done < len(w.jobs):
+                    results[w.jobs[w.done]["id"]] = res
+                    w.done += 1
+            if w.done >= len(w.jobs) and w in active:
+                active.remove(w)
+        for w in list(active):
+            if now - w.last > timeout and w.done < len(w.jobs):
+                w.stop()
+                results[w.jobs[w.done]["id"]] = {"timeout": True}
+                rest = w.jobs[w.done + 1:]
+                if rest:
+                    w.assign(rest)
+                else:
+                    active.remove(w)
     STATS["driver_jobs"] += len(jobs)
     STATS["driver_seconds"] += time.time() - t0
     return results
